@@ -77,6 +77,16 @@ func c30configs(thorough bool) []config {
 		add(c30files(2), c30optLists(1))
 		add(c30files(1), c30optLists(2)[5:])
 	}
+	// an option given again after a conflicting one (a, b, a): the list is ordered, the last occurrence decides
+	var aba [][]string
+	for _, a := range c30opts {
+		for _, b := range c30opts {
+			if a != b {
+				aba = append(aba, []string{a, b, a})
+			}
+		}
+	}
+	add([]config{{}}, aba)
 	// alternate flag / environment spelling (thorough: both)
 	var res []config
 	for i, c := range out {
@@ -451,7 +461,7 @@ func TestC30(t *testing.T) {
 	rep.Coverage["inconclusive"] = incon
 	rep.Coverage["exhaustive"] = incon == 0
 	rep.Coverage["samples"] = samples
-	rep.Coverage["rule"] = "the three binaries built from the current tree; configurations = predefined-topics YAML files over clients {c1,*} x ids {1,2} x names {t/1,t/2} (quick: at most 2 entries, thorough: at most 3, and no file) x --predefined-topic lists of length 0..2 over {t/1;1, t/2;1, c1;t/1;2, c1;t/2;1} in both orders, given as flags or as environment variables; per configuration and client id (c1; c2 = a client without entries of its own): bisquitt-pub -t <name> (PUBLISH predefined id vs REGISTER on the wire), bisquitt-sub -t t/1 -t t/2 (SUBSCRIBE predefined id vs name), bisquitt with a harness client subscribing to predefined ids 1 and 2 (filter seen by the harness broker vs refusal); reference = file, overridden entry by entry by the options in order, two-field options under \"*\", client entry before \"*\". distinct_nontrivial = distinct observation vectors; evaluations = tool probes"
+	rep.Coverage["rule"] = "the three binaries built from the current tree; configurations = (plus, without a file, every option list a,b,a of two different options: the last occurrence decides) predefined-topics YAML files over clients {c1,*} x ids {1,2} x names {t/1,t/2} (quick: at most 2 entries, thorough: at most 3, and no file) x --predefined-topic lists of length 0..2 over {t/1;1, t/2;1, c1;t/1;2, c1;t/2;1} in both orders, given as flags or as environment variables; per configuration and client id (c1; c2 = a client without entries of its own): bisquitt-pub -t <name> (PUBLISH predefined id vs REGISTER on the wire), bisquitt-sub -t t/1 -t t/2 (SUBSCRIBE predefined id vs name), bisquitt with a harness client subscribing to predefined ids 1 and 2 (filter seen by the harness broker vs refusal); reference = file, overridden entry by entry by the options in order, two-field options under \"*\", client entry before \"*\". distinct_nontrivial = distinct observation vectors; evaluations = tool probes"
 	rep.Assumptions = []string{"loopback peers answer at once; no timing is judged; a probe that meets the 10 s harness deadline is counted as inconclusive", "client ids c1 and (every third configuration in the quick tier) c2, a client that only the * entries apply to"}
 	rep.Finish()
 }
